@@ -38,7 +38,7 @@ LEVEL_TEXT = (
     "parser can produce (defined or undefined in C, any size) used as a global initialiser of any integer type, a case label, an "
     "enumerator or an array size, the model of ppci's pipeline (semantic typing, ConstantExpressionEvaluator, CContext.pack) ends "
     "with a value or the diagnostic CompilerError, never with another exception; CContext.pack returns bytes for every integer and "
-    "every integer type (no struct.error); `#if` on every sentence of the #if expression grammar keeps/skips the group or reports a "
+    "every non-float type it accepts: integer basic types, enum types, pointer types (no struct.error); `#if` on every sentence of the #if expression grammar keeps/skips the group or reports a "
     "diagnostic. (IR text and C3, Props/C28X.lean: corollaries of C15 and C37, nothing new proved) the model of the IR text reader "
     "ends in a module, not an error, on the printed text of every module of C15's text fragment; the C3 operator/comparison lowering "
     "lookups resolve for every operator and integer type of both modelled targets. Proved after the fix commits of C27/C26/C15/C37; "
